@@ -1,57 +1,48 @@
+// throw-away: investigate the C12 replay (altered byte in a checksummed page, Ok(true), savepoint gone)
 use redb::*;
-use std::sync::{Arc, Mutex, Condvar};
-use std::sync::atomic::{AtomicBool, Ordering};
-const T: TableDefinition<u64, &[u8]> = TableDefinition::new("x");
-thread_local! { static IS_READER: std::cell::Cell<bool> = const { std::cell::Cell::new(false) }; }
+use vcore::backend::RecBackend;
+use vcore::decoder::*;
+use vcore::hist::*;
+use vcore::tape::Tape;
 fn main() {
-    let gate = Arc::new((Mutex::new((false /*reader parked*/, false /*release*/)), Condvar::new()));
-    let g2 = gate.clone();
-    redb::verif_sched::set_pause_hook(Some(Arc::new(move |p| {
-        if p == "read.registered" && IS_READER.with(|r| r.get()) {
-            let (m, cv) = &*g2;
-            let mut g = m.lock().unwrap();
-            g.0 = true; cv.notify_all();
-            while !g.1 { g = cv.wait(g).unwrap(); }
+    let path = std::env::args().nth(1).unwrap();
+    let v: serde_json::Value = serde_json::from_str(&std::fs::read_to_string(path).unwrap()).unwrap();
+    let tape = Tape::from_hex(v["tape"].as_str().unwrap()).unwrap();
+    let off: usize = std::env::args().nth(2).unwrap().parse().unwrap();
+    let mask: u8 = std::env::args().nth(3).unwrap().parse().unwrap();
+    let cfg = decode_cfg(&tape);
+    let mut p = Profile::base();
+    // same profile as c12
+    p.w_commit = 30; p.w_begin = 12; p.nondurable = 40; p.w_sp_pers = 5; p.w_sp_eph = 0; p.w_restore = 2; p.w_del_pers = 2; p.w_delete_table = 3; p.w_reopen = 2; p.w_compact = 1; p.w_check = 0; p.w_begin_read = 0; p.w_reader_probe = 0; p.w_take_owned = 0; p.w_owned_step = 0; p.w_hold = 0; p.mismatch = 0; p.key_universe = 48; p.verify_each_commit = false;
+    let mut m = Machine::new(cfg.clone(), p, false, false).map_err(|_| "new").unwrap();
+    m.run_tape(&tape).map_err(|_| "run").unwrap();
+    m.drop_all_handles();
+    let db = m.db.take(); drop(db);
+    let img = m.backend.image();
+    let src = ImageSource::new(&img).unwrap();
+    let h = &src.header;
+    let slot = &h.slots[h.primary];
+    let forest = decode_forest(&src, slot.user_root, slot.system_root, true).unwrap();
+    println!("page size {} primary {} savepoints {:?}", h.page_size, h.primary, forest.savepoints.keys().collect::<Vec<_>>());
+    for (k, cov) in &forest.covered {
+        let (s, e) = h.page_range(*k);
+        if (s as usize) <= off && off < e as usize {
+            println!("offset {off} lies in page {k:?} range {s}..{e} covered {cov} (offset in page {}), data page: {} system page: {}", off - s as usize, forest.data_pages.contains(k), forest.system_pages.contains(k));
         }
-    })));
-    let mut b = Builder::new();
-    b.verif_set_page_size(512); b.verif_set_region_size(65536); b.set_cache_size(0);
-    let db = Arc::new(b.create_with_backend(backends::InMemoryBackend::new()).unwrap());
-    let write = |k: u64, nd: bool| {
-        let mut w = db.begin_write().unwrap();
-        if nd { w.set_durability(Durability::None).unwrap(); }
-        { let mut t = w.open_table(T).unwrap(); for i in 0..40u64 { t.insert(i, vec![(k as u8).wrapping_add(i as u8); 300].as_slice()).unwrap(); } }
-        w.commit().unwrap();
-    };
-    write(1, false); // durable D
-    let db2 = db.clone();
-    let corrupted = Arc::new(AtomicBool::new(false));
-    let c2 = corrupted.clone();
-    let g3 = gate.clone();
-    let reader = std::thread::spawn(move || {
-        IS_READER.with(|r| r.set(true));
-        let rt = db2.begin_read().unwrap();     // parks between registration and root read
-        let t = rt.open_table(T).unwrap();
-        let snap: Vec<Vec<u8>> = t.iter().unwrap().map(|e| e.unwrap().1.value().to_vec()).collect();
-        // tell main to continue with one more non-durable commit, then re-read
-        { let (m, cv) = &*g3; let mut g = m.lock().unwrap(); g.0 = false; g.1 = false; cv.notify_all(); while !g.1 { g = cv.wait(g).unwrap(); } }
-        let r = std::panic::catch_unwind(std::panic::AssertUnwindSafe(|| {
-            let again: Vec<Vec<u8>> = t.iter().unwrap().map(|e| e.unwrap().1.value().to_vec()).collect();
-            again
-        }));
-        match r {
-            Ok(again) => { if again != snap { c2.store(true, Ordering::SeqCst); println!("reader: snapshot CHANGED under a live read transaction ({} rows before, {} after; first row byte {} -> {})", snap.len(), again.len(), snap[0][0], again.get(0).map(|v| v[0]).unwrap_or(0)); } else { println!("reader: snapshot stable, first byte {}", snap[0][0]); } }
-            Err(_) => { c2.store(true, Ordering::SeqCst); println!("reader: PANIC while re-reading its snapshot"); }
-        }
-    });
-    { let (m, cv) = &*gate; let mut g = m.lock().unwrap(); while !g.0 { g = cv.wait(g).unwrap(); } }
-    // reader is registered (at the durable commit) but has not read the root yet
-    write(2, true); write(3, true);
-    { let (m, cv) = &*gate; let mut g = m.lock().unwrap(); g.1 = true; cv.notify_all(); while g.1 { g = cv.wait(g).unwrap(); } }
-    // reader has now read the root of commit 3; two more non-durable commits reclaim and reuse pages
-    let r = std::panic::catch_unwind(std::panic::AssertUnwindSafe(|| { write(4, true); write(5, true); write(6, true); }));
-    if r.is_err() { println!("writer: PANIC (debug assertion: freeing a page a reader still references)"); }
-    { let (m, cv) = &*gate; let mut g = m.lock().unwrap(); g.1 = true; cv.notify_all(); }
-    reader.join().unwrap();
-    println!("corrupted={}", corrupted.load(Ordering::SeqCst));
+    }
+    for (n, t) in &forest.system { println!("system table {n:?}: pages {:?}", t.pages.iter().take(6).collect::<Vec<_>>()); }
+    let mut alt = img.clone();
+    alt[off] ^= mask;
+    let b = RecBackend::from_image(alt, false);
+    let mut db = cfg.builder().create_with_backend(b).unwrap();
+    println!("check_integrity: {:?}", db.check_integrity());
+    let w = db.begin_write().unwrap();
+    println!("list_persistent_savepoints: {:?}", w.list_persistent_savepoints().map(|i| i.collect::<Vec<_>>()));
+    println!("get_persistent_savepoint(1): {:?}", w.get_persistent_savepoint(1).map(|_| "ok"));
+    w.abort().unwrap();
+    // unaltered for comparison
+    let b = RecBackend::from_image(img, false);
+    let db = cfg.builder().create_with_backend(b).unwrap();
+    let w = db.begin_write().unwrap();
+    println!("unaltered list_persistent_savepoints: {:?}", w.list_persistent_savepoints().map(|i| i.collect::<Vec<_>>()));
 }
